@@ -189,6 +189,40 @@ example : MdsVerif.Drv.C04.cmpOf "rev" 1 2 = .gt ∧ MdsVerif.Drv.C04.cmpOf "div
 
 end drivercmp
 
+/-! ### the facts regenerated from omap/omap.go -/
+
+/-- **C04_current.**  The facts regenerated from `omap/omap.go` (`Gen.Omap`, `extract/omap.go`) are the pinned
+ones, and the extractor recognised the statement skeleton of every method of `Map` and `Iter`: the balance
+factor of `NewFunc` (`Model.Omap.newFunc` takes it from there) is 250, and for every method the nil-tree guard
+and the tree / cursor methods it delegates to are the ones `Model.Omap` mirrors — `Set → Replace` *without* a
+guard (the zero Map panics), `Delete → Remove`, `GetOK → Get`, `Clear → Clear`, `Keys → Inorder`,
+`First → Root().Min()`, `Last → Root().Max()`, `Map.Seek → First().Seek`, `Iter.Seek →` the first element of
+`InorderAfter`, then `Cursor`, `Iter.Next/Prev/Key/Value → Cursor.Next/Prev/Key/Key`.  A one-token change in any
+of them changes `Gen/Omap.lean` and this theorem no longer compiles. -/
+theorem C04_current :
+    Gen.Omap.recognised = true ∧
+    Gen.Omap.balance = 250 ∧
+    (Omap.newFunc : Omap.Map Nat Nat) = some (T.empty 250) ∧
+    Gen.Omap.methods = [
+      ("Map.String", "nil-returns", "Map.First,Iter.IsValid,Iter.Next,Iter.Key,Iter.Value"),
+      ("Map.Len", "nil-returns", "Len"),
+      ("Map.Get", "none", "Map.GetOK"),
+      ("Map.GetOK", "nonnil-block", "Get"),
+      ("Map.Set", "none", "Replace"),
+      ("Map.Delete", "nil-returns", "Remove"),
+      ("Map.Clear", "nonnil-block", "Clear"),
+      ("Map.Keys", "nil-returns", "Len,Map.Len,Inorder"),
+      ("Map.First", "nonnil-block", "Root.Min"),
+      ("Map.Last", "nonnil-block", "Root.Max"),
+      ("Map.Seek", "none", "Map.First.Seek"),
+      ("Iter.IsValid", "none", "c.Valid"),
+      ("Iter.Next", "none", "c.Next"),
+      ("Iter.Prev", "none", "c.Prev"),
+      ("Iter.Key", "none", "c.Key"),
+      ("Iter.Value", "none", "c.Key"),
+      ("Iter.Seek", "nonnil-block", "InorderAfter,Cursor")] :=
+  ⟨rfl, rfl, rfl, rfl⟩
+
 /-! ### non-vacuity -/
 
 def natCmp (a b : Nat) : Ordering := compare a b
